@@ -95,6 +95,13 @@ pub fn absorb(run: &mut Run, sw: Sweep, family: &str) {
     run.merge_violations(sw.violations);
 }
 
+/// inputs that are extreme in one dimension (src/scale.rs) through the same reference detectors
+pub fn scale_sweep(run: &mut Run, ds: &[crate::dets::Detector], items: Vec<(String, String, Vec<usize>)>, family: &str) {
+    let items: Vec<_> = items.into_iter().filter(|(_, t, _)| refdet::unique_state_var_names(t)).collect();
+    let sw = refdet::sweep_texts(&items, ds, Mode::Semantic);
+    absorb(run, sw, family);
+}
+
 pub fn require_must(run: &mut Run, sw: &Sweep, names: &[&str], family: &str) {
     for (name, must, _, _) in &sw.stats {
         if names.contains(&name.as_str()) && *must == 0 {
@@ -172,6 +179,11 @@ pub fn c05(tier: Tier) -> i32 {
     let sw2 = refdet::sweep_texts(&items, &shift, Mode::Semantic);
     require_must(&mut run, &sw2, &["shift_math"], "pow2-boundary");
     absorb(&mut run, sw2, "pow2-boundary");
+    {
+        let mut it = crate::scale::line_items(tier == Tier::Thorough);
+        it.extend(crate::scale::shape_items());
+        scale_sweep(&mut run, &ds, it, "scale");
+    }
     let samples = json!(sigma_samples);
     absorb(&mut run, sw, "Σ");
     finish(
@@ -575,6 +587,11 @@ pub fn c06(tier: Tier) -> i32 {
         .collect();
     let sw3 = refdet::sweep_texts(&d_items, &ds, Mode::Semantic);
     absorb(&mut run, sw3, "Σ_D+contexts");
+    {
+        let mut it = crate::scale::width_items(tier == Tier::Thorough);
+        it.extend(crate::scale::shape_items());
+        scale_sweep(&mut run, &ds, it, "scale");
+    }
     finish(
         run,
         "states = files of the declaration space D: every member description (type x visibility x constant/immutable x name; function kind x visibility x mutability x body x name) alone in every contract kind, with <= 2 neighbours of 8 member kinds at every relative position, and as 1st/2nd/3rd item of multi-item files; constructor_order: ALL sequences over 7 member kinds of length <= 5 in one contract, <= 3 x <= 2 in two contracts (both orders, with a free function between), three contracts, counts up to 513; plus Σ_D; oracle = reference detectors 8.12–8.16 with iff semantics on the decided alphabet; non-trivial = distinct (detector, reported set) outcomes",
@@ -862,6 +879,11 @@ pub fn c07(tier: Tier) -> i32 {
     let sw4 = refdet::sweep_texts(&items4, &fp, Mode::Semantic);
     require_must(&mut run, &sw4, &["floating_pragma"], "pragma-values");
     absorb(&mut run, sw4, "pragma-values");
+    {
+        let mut it = crate::scale::line_items(tier == Tier::Thorough);
+        it.extend(crate::scale::shape_items());
+        scale_sweep(&mut run, &ds, it, "scale");
+    }
     // ---- the same detectors through analyze_dir, with spaced member accesses and directives
     {
         let mut texts: Vec<(String, String)> = Vec::new();
@@ -1305,6 +1327,11 @@ pub fn c08(tier: Tier) -> i32 {
             }
         }
     }
+    {
+        let mut it = crate::scale::width_items(tier == Tier::Thorough);
+        it.extend(crate::scale::shape_items());
+        scale_sweep(&mut run, &ds, it, "scale");
+    }
     let sw3 = refdet::sweep_texts(&items3, &m2c, Mode::Semantic);
     require_must(&mut run, &sw3, &["memory_to_calldata"], "parameters");
     let sample3 = json!({"label": items3[items3.len() / 2].0, "text": items3[items3.len() / 2].1});
@@ -1468,6 +1495,7 @@ pub fn c09(tier: Tier) -> i32 {
     let sw2 = refdet::sweep_texts(&items2, &ds, Mode::Semantic);
     require_must(&mut run, &sw2, C09_DETS, "every-hole");
     absorb(&mut run, sw2, "every-hole");
+    scale_sweep(&mut run, &ds, crate::scale::string_items(tier == Tier::Thorough), "scale");
     // ---- the same verdicts through analyze_dir, with unusual but valid spellings of the directives
     {
         let mut texts: Vec<(String, String)> = Vec::new();
